@@ -71,11 +71,12 @@ class SChunks:
 
 class SData:
     """xarray.DataArray facade: .data / .shape / .dims / .coords"""
-    def __init__(self, arr, dims=None, name=None, owner=None):
+    def __init__(self, arr, dims=None, name=None, owner=None, coords=None):
         self.arr = arr
         self.dims = dims
         self.name = name
         self.owner = owner   # the dataset whose coordinates label this array (None: a bare array, assigned positionally)
+        self.coords = coords  # {dim: coordinate array} given explicitly to xr.DataArray(...), else None
 
 
 class SDs:
@@ -277,6 +278,8 @@ class LazyMixin:
                 return base.coords[a]
             if a in base.vars:
                 return base.vars[a]
+            if a in ("drop_dims",):
+                return SFunc(name="dataset." + a, handler=("method", base))
             raise Unsupported("dataset attribute %s (line %d)" % (a, n.lineno))
         # re-dispatch without re-evaluating the base expression
         return super().e_Attribute(ast.Attribute(value=_Lit(base), attr=a, ctx=n.ctx, lineno=n.lineno, col_offset=0), st)
